@@ -214,15 +214,18 @@ func (c *Checker) evaluate(o evalOpts) (*RunResult, []Violation, error) {
 	if rr.Spec == nil {
 		if rr.Crashed && c.Prop == "C17" && len(o.Env) > 0 {
 			// the process did not even start under this (valid) environment: does it start under the default one?
-			plan := runChild(ChildOpts{Build: o.Build, Args: append(append([]string{}, o.Args...), "-plan"), Spec: o.Spec, Timeout: 30 * time.Second})
-			if plan.Machine == "" && !plan.Crashed {
-				var spec RunSpec
-				if out := runChildOut(o.Build, append(append([]string{}, o.Args...), "-plan")...); json.Unmarshal([]byte(strings.TrimSpace(out)), &spec) == nil {
-					spec.Hist = nil
-					v := Violation{Prop: "C17", Sig: "C17/valid-environment-kills-process", Kind: "crash", Slot: -1, Spec: &spec, Build: o.Build.Cfg, Env: o.Env, rr: rr,
-						Msg: fmt.Sprintf("under the valid environment %v the process dies before the first call, under the default environment it starts: %s", o.Env, crashSummary(rr.Stderr))}
-					return rr, []Violation{v}, nil
-				}
+			var spec RunSpec
+			ok := false
+			if o.Spec != nil {
+				spec, ok = *o.Spec, true
+			} else if out := runChildOut(o.Build, append(append([]string{}, o.Args...), "-plan")...); json.Unmarshal([]byte(strings.TrimSpace(out)), &spec) == nil && spec.Prof != "" {
+				ok = true
+			}
+			if ok {
+				spec.Hist = nil
+				v := Violation{Prop: "C17", Sig: "C17/valid-environment-kills-process", Kind: "crash", Slot: -1, Spec: &spec, Build: o.Build.Cfg, Env: o.Env, rr: rr,
+					Msg: fmt.Sprintf("under the valid environment %v the process dies before the first call, under the default environment it starts: %s", o.Env, crashSummary(rr.Stderr))}
+				return rr, []Violation{v}, nil
 			}
 		}
 		if rr.Crashed {
